@@ -2,6 +2,8 @@ package service_account
 
 import (
 	"fmt"
+	"math"
+	"math/bits"
 
 	types "github.com/New-JAMneration/JAM-Protocol/internal/types"
 	utils "github.com/New-JAMneration/JAM-Protocol/internal/utilities"
@@ -186,12 +188,26 @@ func CalcThresholdBalance(aI types.U32, aO types.U64, aF types.U64) types.U64 {
 	/*
 		a_t ∈ N_B ≡ B_S + B_I*a_i + B_L*a_o
 	*/
-	storage := types.U64(types.BasicMinBalance) + types.U64(types.U32(types.AdditionalMinBalancePerItem)*aI) + types.U64(types.AdditionalMinBalancePerOctet)*aO
-	if storage < aF {
-		// result < 0
+	// B_S + B_I*a_i + B_L*a_o can exceed 64 bits (a_i < 2^32, a_o < 2^64): accumulate it as a 128-bit value
+	// (hi, lo). The previous 32-bit product B_I*a_i wrapped for a_i > 429 496 729 and the sum wrapped
+	// near 2^64 even when the result after subtracting a_f still fits.
+	itemHi, itemLo := bits.Mul64(uint64(types.AdditionalMinBalancePerItem), uint64(aI))
+	octetHi, octetLo := bits.Mul64(uint64(types.AdditionalMinBalancePerOctet), uint64(aO))
+	lo, carry := bits.Add64(uint64(types.BasicMinBalance), itemLo, 0)
+	hi := itemHi + carry
+	lo, carry = bits.Add64(lo, octetLo, 0)
+	hi += octetHi + carry
+	// subtract the gratis offset a_f, flooring at zero
+	if hi == 0 && lo < uint64(aF) {
 		return 0
 	}
-	return storage - aF
+	lo, borrow := bits.Sub64(lo, uint64(aF), 0)
+	hi -= borrow
+	if hi != 0 {
+		// the threshold does not fit 64 bits: no balance can reach it
+		return types.U64(math.MaxUint64)
+	}
+	return types.U64(lo)
 }
 
 /*
